@@ -74,6 +74,7 @@ def parseTok? (s : St) (i : Nat) : List String → Option IdTok
     let cert ← cert.toNat?
     some (.x509 (← pid.toNat?) (if cert = 0 then none else some cert) .null)
   | ["invalid"] => some .invalid
+  | ["invalid", _] => some .invalid
   | _ => none
 
 def showNonce (pol : Nat) (v : Nat) : String :=
@@ -90,13 +91,99 @@ def probe (s : St) : String :=
       | some k => toString k
       | none => "?")) ++ "]"
 
+/-! ### arm tags: which guard of `activate_session` / `authenticate_endpoint` decided (mirrors the
+order of `activateStatus` / `authTok`; used only to measure what the generated ops reach) -/
+
+def nonceKind (st : St) (x : Sess) (v : Nat) : String :=
+  if v = x.nonce then "current"
+  else if v ≥ 1000000 then "unissued"
+  else if st.sessions.any (fun y => y.nonce == v) then "other-session"
+  else "earlier"
+
+def algName : Alg → String
+  | .rsa15 => "rsa15" | .oaep => "oaep" | .oaep256 => "oaep256" | .unknown => "unknown"
+
+def userReason (c : Cfg) (nm p : Nat) : String :=
+  match matchUser c nm p c.tokenIds with
+  | .ok _ => if p = 0 then "user-ok-empty-password" else "user-ok"
+  | .error _ =>
+    if c.tokenIds.any (fun id => match lookupUser c id with
+        | some (.userpass n _) => n == nm
+        | _ => false)
+    then "user-wrong-password"
+    else if c.users.any (fun u => match u.2 with
+        | .userpass n _ => n == nm
+        | _ => false) then "user-not-on-endpoint" else "user-unknown"
+
+def tokReason (st : St) (c : Cfg) (x : Sess) : IdTok → List String
+  | .invalid => ["tok-invalid"]
+  | .empty => [if supportsAnonymous c then "empty-ok" else "empty-anon-not-allowed"]
+  | .anon pid =>
+    [if pid ≠ pidAnonymous then "anon-wrong-policy-id"
+     else if supportsAnonymous c then "anon-ok" else "anon-not-allowed"]
+  | .user pid name pw =>
+    let pwTags : List String := match pw with
+      | .plain _ e => [if e then "pw-plain-empty-alg" else "pw-plain"]
+      | .plainBad => ["pw-plain-not-utf8"]
+      | .enc d u _ n => ["pw-enc-decl-" ++ algName d, "pw-enc-used-" ++ algName u, "pw-enc-nonce-" ++ nonceKind st x n]
+    pwTags ++
+    [if !supportsUserPass c then "user-kind-not-allowed"
+     else if pid ≠ c.pwPolicyId then "user-wrong-policy-id"
+     else match name with
+      | none => "user-name-null"
+      | some nm =>
+        match clearPassword c x.nonce pw with
+        | .error .BadIdentityTokenInvalid => (match pw with
+            | .enc d _ _ _ => if !c.hasKey then "pw-no-server-key" else if d = .unknown then "pw-unknown-algorithm" else "pw-invalid"
+            | _ => "pw-no-server-key")
+        | .error _ => (match pw with
+            | .plainBad => "pw-not-utf8"
+            | .enc d u _ n => if d ≠ u then "pw-padding-mismatch" else if n ≠ x.nonce then "pw-wrong-nonce" else "pw-decode-error"
+            | _ => "pw-decode-error")
+        | .ok p => userReason c nm p]
+  | .x509 pid cert sig =>
+    (match sig with
+     | .by k n => ["sig-by-" ++ (if some k = cert then "own-key" else "other-key"), "sig-nonce-" ++ nonceKind st x n]
+     | .garbage => ["sig-garbage"]
+     | .null => ["sig-null"]) ++
+    [if !supportsX509 c then "x509-kind-not-allowed"
+     else if pid ≠ pidX509 then "x509-wrong-policy-id"
+     else if !c.hasCert then "x509-no-server-cert"
+     else match cert with
+      | none => "x509-cert-unparsable"
+      | some t =>
+        if !sigValid sig t x.nonce then "x509-signature-invalid"
+        else match matchThumb c t c.tokenIds with
+          | .ok _ => "x509-ok"
+          | .error _ => if c.users.any (fun u => u.2 == .x509 (some t)) then "x509-not-on-endpoint" else "x509-unknown-cert"]
+
+def actTags (d : DState) (i : Nat) (cs : ClientSig) (tok : IdTok) : List String :=
+  let c := d.st.cfg
+  match d.st.sessions[i]? with
+  | none => ["act-no-session"]
+  | some x =>
+    [s!"pol-{d.pol}", if x.activated then "act-again" else "act-first", s!"act-session-{min i 1}"] ++
+    (if !c.endpointOk then ["endpoint-missing"]
+     else
+      (if c.secured then
+        (if !c.hasCert then ["clientsig-no-server-cert"]
+         else match cs with
+          | .null => ["clientsig-null"]
+          | .over n => [if n = x.nonce then "clientsig-current" else "clientsig-" ++ nonceKind d.st x n])
+       else ["clientsig-not-needed"]) ++
+      (if clientSigStatus c x.nonce cs = none then tokReason d.st c x tok else []))
+
+def tagged (r : String) (tags : List String) : String :=
+  if tags.isEmpty then r else r ++ " @@ " ++ ",".intercalate tags
+
 def dstep (d : DState) (toks : List String) : DState × String :=
   match toks with
   | ["reset", pol, _mode, bits] =>
     match pol.toNat?, bits.toNat? with
     | some pol, some bits =>
       let st := St.init (mkCfg (min pol 5) bits)
-      ({ st := st, pol := min pol 5 }, "ok | " ++ probe st)
+      ({ st := st, pol := min pol 5 }, tagged ("ok | " ++ probe st)
+        ((List.range 12).filterMap (fun k => if bit bits k then some s!"cfg-bit-{k}" else none)))
     | _, _ => (d, "bad-op")
   | ["create"] =>
     match step d.st .create with
@@ -112,9 +199,10 @@ def dstep (d : DState) (toks : List String) : DState × String :=
       match cs? with
       | none => (d, "bad-op")
       | some cs =>
+        let tags := actTags d i cs tok
         match step d.st (.activate i cs tok) with
-        | (st, .activated k) => ({ d with st := st }, s!"ok n{k} {showNonce d.pol (nonceAt st k)} | " ++ probe st)
-        | (st, .fault e) => ({ d with st := st }, "err " ++ e.name ++ " | " ++ probe st)
+        | (st, .activated k) => ({ d with st := st }, tagged (s!"ok n{k} {showNonce d.pol (nonceAt st k)} | " ++ probe st) (tags ++ ["act-ok"]))
+        | (st, .fault e) => ({ d with st := st }, tagged ("err " ++ e.name ++ " | " ++ probe st) (tags ++ ["act-" ++ e.name]))
         | (st, _) => ({ d with st := st }, "bad-op")
     | none => (d, "bad-op")
   | _ => (d, "bad-op")
